@@ -17,14 +17,16 @@
                         itself (every row, every flag, `n`), when `c` was unknown
   * `history_free`    : two histories (C17 operations interleaved with computes, `C01.HOp`) from a new
                         game that end in the same spec-knowledge give row-wise equal compute results
-  The environment-level undo (`unstep (step a e)` restores bounds, gap, reward, observation, counter) is
-  C09's / the environment agent's file (ICG/Props/C09.lean), not this one.
+  The environment-level undo, `C08_env_undo` (`unstep a (step a e)` restores bounds, gap, reward,
+  observation and step counter) is about ICG/Model/Env.lean and lives in the environment agent's files
+  (ICG/Lemmas/EnvUndo.lean, ICG/Props/C09.lean), not here; it rests on `undo` below.
 -/
 import ICG.Lemmas.BoundsCommon
 import ICG.Props.C01
 
 namespace ICG.C08
 open ICG Table
+open ICG.BoundsCommon
 
 variable {α : Type}
 
@@ -221,5 +223,126 @@ example (r : Nat) : ∃ t1, sam r Ex.samT = .ok t1 ∧ ∃ t2 t3 t4, t1.reveal 1
     (by rw [hk]; decide) 1000
 
 end main
+
+/-! ### history-freeness
+
+Histories are those of C01: C17 operations (returning or raising) interleaved with compute steps
+(`C01.HOp`, `C01.runH`; a raising compute leaves the table as it was).  The abstract known-map after a
+history (`C01.specRunH`, coalition ↦ value if known) is computed from the operations alone. -/
+
+section history
+variable [AddCommGroup α] [LinearOrder α]
+open ICG.C01
+
+/-- a step keeps the rows outside the game blank (unknown, both cells 0) -/
+theorem applyH_blank {t : Table α} (hinv : t.Inv) (hb : C17.Blank t) (x : HOp α) :
+    C17.Blank (applyH t x) := by
+  cases x with
+  | op o => exact C17.applyOp_blank hb o
+  | compute k =>
+    simp only [applyH]
+    rcases C17.keep_cases t (k.run t) with ⟨t', ht', hk⟩ | ⟨e, _, hk⟩
+    · rw [hk]
+      obtain ⟨f1, f2, f3, _⟩ := run_frame hinv ht'
+      intro c hc
+      rw [f1] at hc
+      obtain ⟨b1, b2, b3⟩ := hb c hc
+      exact ⟨by rw [f2]; exact b1, by rw [(f3 c hc).1]; exact b2, by rw [(f3 c hc).2]; exact b3⟩
+    · rw [hk]; exact hb
+
+theorem runH_blank : ∀ (h : List (HOp α)) {t : Table α} {s : C17.Spec α}, C17.Rel t s → C17.Blank t →
+    admissibleH t.n s h = true → C17.Blank (runH t h)
+  | [], _, _, _, hb, _ => hb
+  | x :: h, t, s, hrel, hb, hadm => by
+    simp only [admissibleH, Bool.and_eq_true] at hadm
+    obtain ⟨hn, hr⟩ := refinesH hrel x hadm.1
+    exact runH_blank h hr (applyH_blank (inv_of_rel hrel) hb x) (by rw [hn]; exact hadm.2)
+
+/-- **C08_history_free.**  Two admissible histories from a new game on `n` players whose known-maps agree
+    at the end (same coalitions known, with the same values) — whatever else they did: scalar bound
+    writes, bulk bound writes, computes with any computers, raising calls — give the SAME table after a
+    compute (every row, every flag), for every registered computer; the computes succeed as soon as one
+    final table has minimal information. -/
+theorem history_free (k : Computer) (n : Nat) (h1 h2 : List (HOp α))
+    (ha1 : admissibleH n (C17.specInit (α := α)) h1 = true)
+    (ha2 : admissibleH n (C17.specInit (α := α)) h2 = true)
+    (hsame : ∀ c, c < 2 ^ n → specRunH n C17.specInit h1 c = specRunH n C17.specInit h2 c)
+    (hmin : MinInfo n (runH (Table.init n) h1).known) :
+    ∃ t', k.run (runH (Table.init n) h1) = .ok t' ∧ k.run (runH (Table.init n) h2) = .ok t' := by
+  obtain ⟨n1, r1⟩ := refines_runH h1 (C17.rel_init (α := α) n) ha1
+  obtain ⟨n2, r2⟩ := refines_runH h2 (C17.rel_init (α := α) n) ha2
+  have b1 := runH_blank h1 (C17.rel_init (α := α) n) (C17.blank_init n) ha1
+  have b2 := runH_blank h2 (C17.rel_init (α := α) n) (C17.blank_init n) ha2
+  generalize runH (Table.init (α := α) n) h1 = T1 at *
+  generalize runH (Table.init (α := α) n) h2 = T2 at *
+  have n1' : T1.n = n := n1
+  have n2' : T2.n = n := n2
+  have hk : T1.known = T2.known := by
+    funext c
+    by_cases hc : c < 2 ^ n
+    · rw [(r1 c (by rw [n1']; exact hc)).1, (r2 c (by rw [n2']; exact hc)).1]
+      show (specRunH n C17.specInit h1 c).isSome = (specRunH n C17.specInit h2 c).isSome
+      rw [hsame c hc]
+    · rw [(b1 c (by rw [n1']; omega)).1, (b2 c (by rw [n2']; omega)).1]
+  have hv : ∀ c, c < 2 ^ T1.n → T1.known c = true → T1.lo c = T2.lo c := by
+    intro c hc hkc
+    have hc' : c < 2 ^ n := by rw [← n1']; exact hc
+    have e1 := (C17.spec_of_known r1 hc hkc).1
+    have e2 := (C17.spec_of_known r2 (by rw [n2']; exact hc') (by rw [← hk]; exact hkc)).1
+    have : specRunH n C17.specInit h1 c = specRunH n C17.specInit h2 c := hsame c hc'
+    have e1' : specRunH n C17.specInit h1 c = some (T1.lo c) := e1
+    have e2' : specRunH n C17.specInit h2 c = some (T2.lo c) := e2
+    rw [e1', e2'] at this
+    injection this
+  have hinv1 := inv_of_rel r1
+  have hinv2 := inv_of_rel r2
+  obtain ⟨t1, t2, g1, g2, g3, g4, g5⟩ := compute_knowledge_only enumFacts k T1 T2 (by rw [n1', n2']) hk hv
+    (by rw [n1']; exact hmin) hinv1 hinv2
+  obtain ⟨_, _, f3, _⟩ := run_frame hinv1 g1
+  obtain ⟨_, _, f3', _⟩ := run_frame hinv2 g2
+  refine ⟨t1, g1, ?_⟩
+  rw [g2]
+  congr 1
+  apply Refine.table_ext g3.symm g4.symm
+  · intro c
+    by_cases hc : c < 2 ^ T1.n
+    · exact ((g5 c hc).1).symm
+    · rw [(f3 c (by omega)).1, (f3' c (by rw [n2', ← n1']; omega)).1,
+        (b1 c (by omega)).2.1, (b2 c (by rw [n2', ← n1']; omega)).2.1]
+  · intro c
+    by_cases hc : c < 2 ^ T1.n
+    · exact ((g5 c hc).2).symm
+    · rw [(f3 c (by omega)).2, (f3' c (by rw [n2', ← n1']; omega)).2,
+        (b1 c (by omega)).2.2, (b2 c (by rw [n2', ← n1']; omega)).2.2]
+
+end history
+
+/-! ### two concrete histories ending in the same knowledge -/
+
+/-- plain: set the singletons and N -/
+def histA : List (C01.HOp Int) :=
+  [.op (.set 1 1), .op (.set 2 2), .op (.set 1 4), .op (.set 9 7)]
+
+/-- devious: the same knowledge reached through a bulk set, junk scalar bounds, a reveal / compute /
+    un-reveal round trip, a bulk bound write, a raising compute and a different order -/
+def histB : List (C01.HOp Int) :=
+  [.op (.setValues [9, 1] (some [7, 4])), .compute .sac,           -- raises
+   .op (.set 2 2), .op (.set 1 1), .op (.setLowerBound 1000 5), .op (.setUpperBound (-1000) 6),
+   .op (.reveal 4 3), .compute (.sam 3), .op (.unreveal 3),
+   .op (.setBounds false [5, 5, 5] (some [3, 5, 6])), .compute .sa]
+
+example : C01.admissibleH 3 (C17.specInit (α := Int)) histA = true ∧
+    C01.admissibleH 3 (C17.specInit (α := Int)) histB = true := by decide
+
+theorem hist_same : ∀ c, c < 2 ^ 3 →
+    C01.specRunH 3 C17.specInit histA c = C01.specRunH 3 C17.specInit histB c := by decide
+
+/-- hypotheses satisfiable: after either history every computer returns the same table -/
+example (k : Computer) : ∃ t', k.run (C01.runH (Table.init 3) histA) = .ok t' ∧
+    k.run (C01.runH (Table.init 3) histB) = .ok t' := by
+  refine history_free k 3 histA histB (by decide) (by decide) hist_same ?_
+  refine ⟨by decide, by decide, ?_⟩
+  have h : ∀ i, i < 3 → (C01.runH (Table.init (α := Int) 3) histA).known (2 ^ i) = true := by decide
+  exact h
 
 end ICG.C08
